@@ -250,11 +250,28 @@ def image_paths(prog, rep):
     fill_contiguous its own bounding box together with a stream over the same image."""
     IM = "embedded_graphics::image::Image"
     dr = prog.method1(IM, "draw", "embedded_graphics_core::drawable::Drawable")
-    s = sites(dr, "draw")
     off = ("field", P(1, "self"), field_index(prog, IM, "offset"))
     img = ("field", P(1, "self"), field_index(prog, IM, "image_drawable"))
-    ok = len(s) == 1 and s[0][1][0] == img and match(s[0][1][1], ("call", "*::translated", "_", (("param", 2, "_"), off))) is not None
-    rep.check(ok, "R01.5", "Image::draw", "Image::draw must draw the image drawable on target.translated(self.offset); found %s" % ([show(x, maxd=4) for x in s[0][1]] if s else "?"), at=dr.span, fn=dr.path)
+    # must-pass-through on path summaries: EVERY path hands the drawable to target.translated(self.offset) and returns
+    # that call's outcome — no early return that skips the drawing for some targets or offsets
+    from mirq.paths import Paths as _P, Unsupported as _U, passes_result as _pr, show_fact as _sf
+    ok, found = True, []
+    try:
+        summs = _P(prog, inline=lambda g: prog.is_new(g)).of(dr)
+        ok = len(summs) >= 1
+        for sm in summs:
+            cs = [e[1] for e in sm.effects if e[0] == "call" and e[1][1].split("::")[-1] == "draw"]
+            if not cs and sm.ret is not None and sm.ret[0] == "call" and sm.ret[1].split("::")[-1] == "draw":
+                cs = [sm.ret]      # the drawing call is the returned value itself
+            others = [e for e in sm.effects if not (e[0] == "call" and e[1][1].split("::")[-1] in ("draw", "translated"))]
+            good = len(cs) == 1 and not others and strip_refs(cs[0][3][0]) == img and (_pr(sm, cs[0]) or sm.ret[:4] == cs[0][:4]) and \
+                any(match(n, ("call", "*::translated", "_", (("param", 2, "_"), off))) is not None for n in walk(cs[0][3][1]))
+            if not good:
+                ok = False
+                found.append("when %s: %s" % ("; ".join(_sf(f_)[:60] for f_ in sm.facts[:3]) or "always", "; ".join(show(c, maxd=3) for c in cs) or "nothing is drawn"))
+    except _U as e:
+        ok, found = False, ["cannot summarise: %s" % e]
+    rep.check(ok, "R01.5", "Image::draw", "Image::draw must draw the image drawable on target.translated(self.offset) on every path; %s" % "; ".join(found[:2]), at=dr.span, fn=dr.path)
     IR = "embedded_graphics::image::image_raw::ImageRaw"
     d2 = prog.method1(IR, "draw", "embedded_graphics_core::image::ImageDrawable")
     # path summaries with helpers introduced by an edit and the image's own bounding_box()/size() inlined: the one effect
